@@ -29,6 +29,9 @@ type schedCase struct {
 	Kind  string         `json:"kind"` // cli-replica | analyzer-parallel | e2e
 	Progs []gen.ProgCase `json:"programs"`
 	K     int            `json:"concurrency"`
+	// ConcFirst (cli-replica): the concurrent batch runs on freshly bound checkers and the sequential
+	// baseline afterwards, so that whatever is filled lazily on first use is filled concurrently
+	ConcFirst bool `json:"concurrent_first,omitempty"`
 	Order []int          `json:"start_order,omitempty"`
 	WS    *e2e.Workspace `json:"workspace,omitempty"`
 	Procs int            `json:"gomaxprocs,omitempty"`
@@ -45,8 +48,11 @@ func init() {
 				case k < 55:
 					sc.Kind = "cli-replica"
 					var pc *gen.ProgCase
-					if rapid.IntRange(0, 9).Draw(rt, "wide") < 4 {
+					switch w := rapid.IntRange(0, 9).Draw(rt, "wide"); {
+					case w < 3:
 						pc, _ = drawWideProgram(rt, env, rec)
+					case w < 6:
+						pc, _ = drawSharedFacilityProgram(rt, env, rec)
 					}
 					if pc == nil {
 						_, pc = gen.DrawProgram(rt, env, gen.DrawOpts{FreshCorpus: true}, rejectCounter(rec))
@@ -54,6 +60,7 @@ func init() {
 					sc.Progs = []gen.ProgCase{*pc}
 					sc.K = pickInt(rt, "k", []int{1, 2, 3, 4, 8, 16, 64, runtime.GOMAXPROCS(0)})
 					sc.Order = rapid.Permutation(seq(len(all.Checkers))).Draw(rt, "order")
+					sc.ConcFirst = rapid.Bool().Draw(rt, "concFirst")
 				case k < 90:
 					sc.Kind = "analyzer-parallel"
 					// passes over the same source (separately loaded) put the most pressure on anything the
@@ -121,6 +128,27 @@ func drawWideProgram(rt *rapid.T, env *gen.Env, rec *core.Recorder) (*gen.ProgCa
 	return &gen.ProgCase{Origin: "kernels", Files: srcs}, true
 }
 
+// drawSharedFacilityProgram renders 3-6 kernels of the checkers that consult facilities of the shared
+// context which compute lazily (type sizes): several goroutines then ask the shared context about
+// the same types at the same time, including types go/types cannot size.
+func drawSharedFacilityProgram(rt *rapid.T, env *gen.Env, rec *core.Recorder) (*gen.ProgCase, bool) {
+	pool := gen.KernelsFor("hugeParam", "rangeValCopy", "rangeExprCopy", "truncateCmp")
+	n := rapid.IntRange(3, 6).Draw(rt, "facilityKernels")
+	ks := make([]gen.Kernel, 0, n)
+	for i := 0; i < n; i++ {
+		ks = append(ks, pool[rapid.IntRange(0, len(pool)-1).Draw(rt, "facilityKernel")])
+	}
+	srcs := gen.KernelFileFor(rt, ks, false)
+	p := env.Load(srcs)
+	if !p.OK() {
+		rec.Reject()
+		rec.Count("rejected:shared-facility-kernels")
+		return nil, false
+	}
+	rec.Count("shared-facility-program")
+	return &gen.ProgCase{Origin: "kernels", Files: srcs}, true
+}
+
 func checkC04(t core.TB, rec *core.Recorder, env *gen.Env, all *core.Set, sc *schedCase) {
 	rec.Eval()
 	switch sc.Kind {
@@ -155,14 +183,24 @@ func checkCLIReplica(t core.TB, rec *core.Recorder, env *gen.Env, all *core.Set,
 		all.BindPackage(p)
 		all.BindFile(p, fi)
 		seqRes := make([][]cmpDiag, len(all.Checkers))
-		for i, c := range all.Checkers {
-			ws, cr := core.RunOne(c, f)
-			if cr != nil {
-				return // C01's subject
+		crashed := false
+		sequential := func() {
+			for i, c := range all.Checkers {
+				ws, cr := core.RunOne(c, f)
+				if cr != nil {
+					crashed = true // C01's subject
+					return
+				}
+				seqRes[i] = toCmp(core.DiagsOf(p.Fset, c.Info.Name, ws))
+				if len(ws) > 0 {
+					fired++
+				}
 			}
-			seqRes[i] = toCmp(core.DiagsOf(p.Fset, c.Info.Name, ws))
-			if len(ws) > 0 {
-				fired++
+		}
+		if !sc.ConcFirst {
+			sequential()
+			if crashed {
+				return
 			}
 		}
 		conc := make([][]linter.Warning, len(all.Checkers))
@@ -183,6 +221,14 @@ func checkCLIReplica(t core.TB, rec *core.Recorder, env *gen.Env, all *core.Set,
 			}()
 		}
 		wg.Wait()
+		if sc.ConcFirst {
+			all.BindPackage(p)
+			all.BindFile(p, fi)
+			sequential()
+			if crashed {
+				return
+			}
+		}
 		for i, c := range all.Checkers {
 			got := toCmp(core.DiagsOf(p.Fset, c.Info.Name, conc[i]))
 			if d := diffDiags(seqRes[i], got); d != "" {
